@@ -10,9 +10,13 @@ import (
 	"github.com/vulcand/oxy/v2/utils"
 )
 
-type vfEffect struct{ n int }
+type vfEffect struct {
+	mu sync.Mutex
+	n  int
+}
 
-func (e *vfEffect) Exec() error { e.n++; return nil }
+func (e *vfEffect) Exec() error { e.mu.Lock(); e.n++; e.mu.Unlock(); return nil }
+func (e *vfEffect) get() int    { e.mu.Lock(); defer e.mu.Unlock(); return e.n }
 
 // ghost state of the history harness
 type vfGhost struct {
